@@ -497,7 +497,7 @@ pub fn run(ctx: &Ctx) -> i32 {
     let fin = if is14 {
         Finish {
             level: "model_checking",
-            rule: "stateless exploration of the sampler machine over all roles (selection, xi, lambda, Box-Muller) with <=2 deviations per sector; on the explored set: exact-length and poisoned slices, non-interference as a 2-safety property over ALL pairs of explored points (hash tables keyed by each coordinate group), influence of every coordinate, and per-execution data-dependence sets from a tracking scalar type; states = executions, transitions = scalar operations traced; non-trivial = executions whose data flow was judged".into(),
+            rule: "stateless exploration of the sampler machine over all roles (selection, xi, lambda, Box-Muller) with <=2 deviations per sector; on the explored set: exact-length and poisoned slices, non-interference as a 2-safety property over ALL pairs of explored points (hash tables keyed by each coordinate group), influence of every coordinate, per-execution data-dependence sets from a tracking scalar type, underflow answers (xi = 1e-300, 2^-1074, 0) alone and with one more deviation, a slice of get_dimension()-1 coordinates (must not be sampled), the size ladder; states = executions, transitions = scalar operations traced; non-trivial = executions whose data flow was judged".into(),
             states: acc.get("executions"),
             transitions: acc.get("scalar_ops").max(1),
             traces: acc.get("dataflow_judged"),
@@ -511,7 +511,7 @@ pub fn run(ctx: &Ctx) -> i32 {
     } else {
         Finish {
             level: "exploration",
-            rule: "(a) narrowing census with a tracking scalar on every explored execution (all sectors in scope, Ok / Unstable / GammaError exits, metadata on and off, debug off): every to_f64 argument is a constant or the designated coordinate, and the multiset of from_f64 arguments (Gamma result excepted) is identical across all points of a sector; (b) double-double scalar through decompose_for_tropical on structured SPD families and graph L matrices against exact rationals at 2^-86*cond; (c) the whole sampler with the double-double scalar (exp/ln/pow in double-double arithmetic) on 2..4-loop bananas: the rescaled parameters recovered from the returned L matrix satisfy the tropical normalisation to 2^-80 and u, v agree with the exact polynomials to 2^-86*cond; non-trivial = tracked executions + DD matrices judged".into(),
+            rule: "(a) narrowing census with a tracking scalar on every explored execution (all sectors in scope, Ok / Unstable / GammaError exits, metadata on and off, debug off): every to_f64 argument is a constant or the designated coordinate, and the multiset of from_f64 arguments (Gamma result excepted) is identical across all points of a sector; (b) double-double scalar through decompose_for_tropical on structured SPD families and graph L matrices against exact rationals at 2^-86*cond; (c) the whole sampler with the double-double scalar (exp/ln/pow in double-double arithmetic) on 2..4-loop bananas: the rescaled parameters recovered from the returned L matrix satisfy the tropical normalisation to 2^-80, u, v agree with the exact polynomials to 2^-86*cond, the momenta satisfy the quadratic-form identity to 2^-84*cond and every Gaussian component equals an independent double-double Box-Muller transform of its pair to 2^-90; the census also runs on the size ladder (7, 8 loops; 8..13 edges); non-trivial = tracked executions + DD matrices judged".into(),
             states: 0,
             transitions: 0,
             traces: 0,
